@@ -102,6 +102,11 @@ def airborne_position_with_ref(
         (float, float): (latitude, longitude) of the aircraft
     """
 
+    tc = common.typecode(msg)
+
+    if tc is None or tc < 9 or tc == 19 or tc > 22:
+        raise RuntimeError("%s: Not an airborne position message" % msg)
+
     mb = common.hex2bin(msg)[32:]
 
     cprlat = common.bin2int(mb[22:39]) / 131072
